@@ -281,5 +281,239 @@ theorem sameVals_refl : ∀ (xs : List Val), inDomainL xs = true → sameVals xs
       exact ⟨sameDesc_refl x h.1, sameVals_refl xs h.2⟩
 end
 
+/-! ## Symmetry on the domain -/
+
+theorem domVals_mem : ∀ (vs : List EV), domVals vs = true → ∀ v ∈ vs, domEV .top v = true
+  | [], _ => by simp
+  | w :: vs, h => by
+      simp only [domVals, Bool.and_eq_true] at h
+      intro v hv
+      rcases List.mem_cons.mp hv with e | hm
+      · rw [e]; exact h.1
+      · exact domVals_mem vs h.2 v hm
+
+/-- the map rule is symmetric as soon as the value relation is -/
+theorem sameMap_symm_of (ks vs ks' vs' : List EV)
+    (hl : ks.length = vs.length) (hl' : ks'.length = vs'.length) (hlen : ks.length = ks'.length)
+    (hnd : ks.Nodup) (hnd' : ks'.Nodup)
+    (hsym : ∀ v ∈ vs, ∀ w ∈ vs', sameEV v w = true → sameEV w v = true)
+    (h : sameMap ks vs ks' vs' = true) : sameMap ks' vs' ks vs = true := by
+  rw [sameMap_iff ks' vs' ks vs hl] at h
+  rw [sameMap_iff ks vs ks' vs' hl']
+  intro q hq
+  obtain ⟨k', w'⟩ := q
+  have hk' : k' ∈ ks' := (List.of_mem_zip hq).1
+  have hw' : w' ∈ vs' := (List.of_mem_zip hq).2
+  -- every key of x is a key of y
+  have hsub : ∀ k ∈ ks, k ∈ ks' := by
+    intro k hk
+    obtain ⟨v, hv⟩ := find_of_mem k ks vs hl hk
+    obtain ⟨w, hw, _⟩ := h (k, v) (find_zip k ks vs v hv)
+    exact (List.of_mem_zip (find_zip k ks' vs' w hw)).1
+  have hback := subset_of_nodup_length ks ks' hnd hsub (by omega) k' hk'
+  obtain ⟨v, hv⟩ := find_of_mem k' ks vs hl hback
+  obtain ⟨w, hw, hvw⟩ := h (k', v) (find_zip k' ks vs v hv)
+  have hww : w = w' := by
+    have := find_of_zip k' ks' vs' w' hnd' hq
+    rw [this] at hw; simp only [Option.some.injEq] at hw; exact hw.symm
+  subst hww
+  exact ⟨v, hv, hsym v (List.of_mem_zip (find_zip k' ks vs v hv)).2 w hw' hvw⟩
+
+mutual
+theorem sameEV_symm : ∀ (x : EV) (c c' : Ctx) (y : EV), domEV c x = true → domEV c' y = true →
+    sameEV x y = true → sameEV y x = true
+  | .ptr t e, c, c', y, hx, hy, h => by
+      simp only [domEV] at hx
+      simp only [sameEV] at h
+      rw [sameEV_congr y (.ptr t e) e (by simp [strip])]
+      exact sameEV_symm e _ c' y hx hy h
+  | .iface e, c, c', y, hx, hy, h => by
+      simp only [domEV] at hx
+      split at hx
+      · simp only [sameEV] at h
+        rw [sameEV_congr y (.iface e) e (by simp [strip])]
+        exact sameEV_symm e _ c' y hx hy h
+      · simp at hx
+  | .inil, c, c', y, hx, hy, h => by
+      simp only [sameEV, Option.isNone_iff_eq_none] at h
+      rw [sameEV_of_strip_none y .inil h]; simp [strip]
+  | .named .., c, c', y, hx, hy, h => by simp [domEV] at hx
+  | .nilptr .., c, c', y, hx, hy, h => by simp [domEV] at hx
+  | .prim t v n, c, c', y, hx, hy, h => by
+      simp only [sameEV] at h
+      cases hz : strip y with
+      | none => simp [hz] at h
+      | some z =>
+        rw [sameEV_of_strip y z _ hz]
+        cases z <;> simp [hz] at h
+        simp only [sameEV, strip, h, beq_self_eq_true, Bool.not_false, Bool.and_self]
+  | .uptr u n, c, c', y, hx, hy, h => by
+      simp only [sameEV] at h
+      cases hz : strip y with
+      | none => simp [hz] at h
+      | some z =>
+        rw [sameEV_of_strip y z _ hz]
+        cases z <;> simp [hz] at h
+        simp [sameEV, strip, h]
+  | .func t i, c, c', y, hx, hy, h => by
+      simp only [sameEV] at h
+      cases hz : strip y with
+      | none => simp [hz] at h
+      | some z =>
+        rw [sameEV_of_strip y z _ hz]
+        cases z <;> simp [hz] at h
+        simp [sameEV, strip, h]
+  | .chan t i, c, c', y, hx, hy, h => by
+      simp only [sameEV] at h
+      cases hz : strip y with
+      | none => simp [hz] at h
+      | some z =>
+        rw [sameEV_of_strip y z _ hz]
+        cases z <;> simp [hz] at h
+        simp [sameEV, strip, h]
+  | .seq a t cp xs, c, c', y, hx, hy, h => by
+      simp only [domEV] at hx
+      simp only [sameEV] at h
+      cases hz : strip y with
+      | none => simp [hz] at h
+      | some z =>
+        rw [sameEV_of_strip y z _ hz]
+        obtain ⟨c'', hdz⟩ := dom_core _ y z hy hz
+        cases z <;> simp [hz] at h
+        rename_i a' t' cp' ys
+        simp only [domEV] at hdz
+        simp only [sameEV, strip, Bool.and_eq_true, beq_iff_eq]
+        exact ⟨h.1.symm, sameList_symm xs ys hx hdz h.2⟩
+  | .map t ks vs, c, c', y, hx, hy, h => by
+      simp only [domEV, Bool.and_eq_true, beq_iff_eq] at hx
+      simp only [sameEV] at h
+      cases hz : strip y with
+      | none => simp [hz] at h
+      | some z =>
+        rw [sameEV_of_strip y z _ hz]
+        obtain ⟨c'', hdz⟩ := dom_core _ y z hy hz
+        cases z <;> simp [hz] at h
+        rename_i t' ks' vs'
+        simp only [domEV, Bool.and_eq_true, beq_iff_eq] at hdz
+        simp only [sameEV, strip, Bool.and_eq_true, beq_iff_eq]
+        refine ⟨⟨h.1.1.symm, h.1.2.symm⟩, ?_⟩
+        apply sameMap_symm_of ks vs ks' vs' hx.1.1.1 hdz.1.1.1 h.1.2
+          ((nodupKeys_iff ks).mp hx.1.1.2) ((nodupKeys_iff ks').mp hdz.1.1.2) ?_ h.2
+        intro v hv w hw hvw
+        exact sameEV_symm_all vs hx.2 v hv w (domVals_mem vs' hdz.2 w hw) hvw
+  | .struct t fs vs, c, c', y, hx, hy, h => by
+      simp only [domEV, Bool.and_eq_true, beq_iff_eq] at hx
+      simp only [sameEV] at h
+      cases hz : strip y with
+      | none => simp [hz] at h
+      | some z =>
+        rw [sameEV_of_strip y z _ hz]
+        obtain ⟨c'', hdz⟩ := dom_core _ y z hy hz
+        cases z <;> simp [hz] at h
+        rename_i t' gs ws
+        simp only [domEV, Bool.and_eq_true, beq_iff_eq] at hdz
+        simp only [sameEV, strip, Bool.and_eq_true, beq_iff_eq]
+        exact ⟨h.1.symm, sameFields_symm fs vs gs ws hx.2 hdz.2 h.2⟩
+
+theorem sameEV_symm_all : ∀ (vs : List EV), domVals vs = true → ∀ v ∈ vs, ∀ w, domEV .top w = true →
+    sameEV v w = true → sameEV w v = true
+  | [], _ => by simp
+  | u :: vs, h => by
+      simp only [domVals, Bool.and_eq_true] at h
+      intro v hv w hw hvw
+      rcases List.mem_cons.mp hv with e | hm
+      · rw [e] at hvw ⊢; exact sameEV_symm u _ _ w h.1 hw hvw
+      · exact sameEV_symm_all vs h.2 v hm w hw hvw
+
+theorem sameList_symm : ∀ (xs ys : List EV), domList xs = true → domList ys = true →
+    sameList xs ys = true → sameList ys xs = true
+  | [], [], _, _, _ => by simp [sameList]
+  | [], _ :: _, _, _, h => by simp [sameList] at h
+  | _ :: _, [], _, _, h => by simp [sameList] at h
+  | x :: xs, y :: ys, hx, hy, h => by
+      simp only [domList, Bool.and_eq_true] at hx hy
+      simp only [sameList, Bool.and_eq_true] at h ⊢
+      exact ⟨sameEV_symm x _ _ y hx.1 hy.1 h.1, sameList_symm xs ys hx.2 hy.2 h.2⟩
+
+theorem sameFields_symm : ∀ (fs : List Fld) (vs : List EV) (gs : List Fld) (ws : List EV),
+    domFields fs vs = true → domFields gs ws = true → sameFields fs vs gs ws = true → sameFields gs ws fs vs = true
+  | [], [], [], [], _, _, _ => by simp [sameFields]
+  | [], [], [], _ :: _, _, _, h => by simp [sameFields] at h
+  | [], [], _ :: _, _, _, _, h => by simp [sameFields] at h
+  | [], _ :: _, _, _, _, _, h => by simp [sameFields] at h
+  | _ :: _, [], _, _, _, _, h => by simp [sameFields] at h
+  | _ :: _, _ :: _, [], _, _, _, h => by simp [sameFields] at h
+  | _ :: _, _ :: _, _ :: _, [], _, _, h => by simp [sameFields] at h
+  | f :: fs, v :: vs, g :: gs, w :: ws, hx, hy, h => by
+      simp only [domFields, Bool.and_eq_true, Bool.or_eq_true, Bool.not_eq_true'] at hx hy
+      simp only [sameFields, Bool.and_eq_true] at h ⊢
+      refine ⟨?_, sameFields_symm fs vs gs ws hx.2 hy.2 h.2⟩
+      have h1 := h.1
+      cases hfe : f.exported <;> cases hge : g.exported <;> simp [hfe, hge] at h1 ⊢
+      have hv : domEV .top v = true := by
+        rcases hx.1 with e | e
+        · rw [hfe] at e; simp at e
+        · exact e
+      have hw : domEV .top w = true := by
+        rcases hy.1 with e | e
+        · rw [hge] at e; simp at e
+        · exact e
+      refine ⟨?_, sameEV_symm v _ _ w hv hw h1.2⟩
+      rcases h1.1 with e | e
+      · exact Or.inl e.symm
+      · exact Or.inr ⟨e.2, e.1⟩
+end
+
+theorem sameKind_symm (c c' : Cfg) (h : sameKind c c' = true) : sameKind c' c = true := by
+  simp only [sameKind, Bool.and_eq_true, beq_iff_eq] at h ⊢
+  exact ⟨h.1.symm, h.2.symm⟩
+
+theorem sameOp_symm (o o' : Op) (h : sameOp o o' = true) : sameOp o' o = true := by
+  cases o <;> cases o' <;> simp_all [sameOp] <;> exact ⟨h.1.symm, h.2.symm⟩
+
+mutual
+theorem sameDesc_symm : ∀ (a b : Val), inDomain a = true → inDomain b = true → sameDesc a b = true → sameDesc b a = true
+  | .nil, b, _, hb, h => by
+      cases b <;> simp_all [sameDesc]
+  | .leaf l, b, ha, hb, h => by
+      simp only [inDomain, Bool.and_eq_true] at ha
+      cases b with
+      | nil => simpa [sameDesc] using h
+      | leaf l' =>
+          simp only [inDomain, Bool.and_eq_true] at hb
+          simp only [sameDesc] at h ⊢
+          exact sameEV_symm _ _ _ _ ha.1 hb.1 h
+      | _ => simp [sameDesc] at h
+  | .stk f c xs, b, ha, hb, h => by
+      simp only [inDomain, Bool.and_eq_true] at ha
+      cases b with
+      | stk f' c' ys =>
+          simp only [inDomain, Bool.and_eq_true] at hb
+          simp only [sameDesc, Bool.and_eq_true, beq_iff_eq] at h ⊢
+          exact ⟨⟨h.1.1.symm, sameKind_symm c c' h.1.2⟩, sameVals_symm xs ys ha.2 hb.2 h.2⟩
+      | _ => simp [sameDesc] at h
+  | .cnd f c kw op ex, b, ha, hb, h => by
+      simp only [inDomain, Bool.and_eq_true] at ha
+      cases b with
+      | cnd f' c' kw' op' ex' =>
+          simp only [inDomain, Bool.and_eq_true] at hb
+          simp only [sameDesc, Bool.and_eq_true, beq_iff_eq] at h ⊢
+          exact ⟨⟨h.1.1.symm, sameOp_symm op op' h.1.2⟩, sameDesc_symm ex ex' ha.2 hb.2 h.2⟩
+      | _ => simp [sameDesc] at h
+  | .zstk _, _, ha, _, _ => by simp [inDomain] at ha
+  | .zcnd _, _, ha, _, _ => by simp [inDomain] at ha
+  | .anys _, _, ha, _, _ => by simp [inDomain] at ha
+
+theorem sameVals_symm : ∀ (xs ys : List Val), inDomainL xs = true → inDomainL ys = true →
+    sameVals xs ys = true → sameVals ys xs = true
+  | [], [], _, _, _ => by simp [sameVals]
+  | [], _ :: _, _, _, h => by simp [sameVals] at h
+  | _ :: _, [], _, _, h => by simp [sameVals] at h
+  | x :: xs, y :: ys, hx, hy, h => by
+      simp only [inDomainL, Bool.and_eq_true] at hx hy
+      simp only [sameVals, Bool.and_eq_true] at h ⊢
+      exact ⟨sameDesc_symm x y hx.1 hy.1 h.1, sameVals_symm xs ys hx.2 hy.2 h.2⟩
+end
+
 end EqSpec
 end Stackage
